@@ -240,10 +240,17 @@ def tokens(s, rng, features):
             pos = len(out) - rng.randint(1, max(1, len(toks) - 1))
             out[pos:pos] = _comment(rng)
     bid = 0
+    split_ids = rng.random() < 0.3      # ids of several words that differ only in where the blanks fall ("box 1 012", "box 10 12")
     for m, r in s['lines']:
         if s.get('ids'):
             bid += 1
-            idw = rng.choice(['b%d' % bid, 'id %d' % bid, ' x%d ' % bid, 'ballot no %d' % bid])
+            if split_ids:
+                digits = str(1000 + bid // 3)
+                cut = 1 + bid % 3
+                idw = rng.choice(['box', 'p']) + ' ' + digits[:cut] + ' ' + digits[cut:]
+                features.add('ballot-ids-differing-in-blanks')
+            else:
+                idw = rng.choice(['b%d' % bid, 'id %d' % bid, ' x%d ' % bid, 'ballot no %d' % bid])
             words = ('(' + idw + ')').split(' ')
             words = [w for w in words if w != ''] if rng.random() < 0.5 else ('(' + idw.strip() + ')').split(' ')
             out += [w for w in words if w != '']
